@@ -101,20 +101,20 @@ def run_one(tape):
   def gen_replies(expected, size=None):
     out = []
     for _ in range(tape.draw(4, 'ninfo')):
-      out.append('INFO' + tape.pick(['hello', 'working...', '', 'x' * 50], 'info'))
+      out.append('INFO' + tape.pick(['hello', 'working...', '', 'x' * 50, 'erasing 50% done', '%s %d'], 'info'))
     last = tape.weighted([(6, 'expected'), (2, 'FAIL'), (1, 'other_final'), (1, 'garbage'), (1, 'silence'),
                           (1 if size is not None else 0, 'wrong_size')], 'last')
     if last == 'expected':
-      out.append(expected + ('%08x' % size if expected == 'DATA' else tape.pick(['', 'done', '0.5'], 'okp')))
+      out.append(expected + ('%08x' % size if expected == 'DATA' else tape.pick(['', 'done', '0.5', '100%'], 'okp')))
     elif last == 'wrong_size':
       ws = size + tape.pick([1, -1, 1024, 4096], 'dsz')
       out.append('DATA%08x' % (ws if ws >= 0 else size + 1))
     elif last == 'FAIL':
-      out.append('FAIL' + tape.pick(['not allowed', '', 'locked'], 'failtxt'))
+      out.append('FAIL' + tape.pick(['not allowed', '', 'locked', 'battery 5% low', 'bad %s'], 'failtxt'))
     elif last == 'other_final':
       out.append(('OKAY' if expected == 'DATA' else 'DATA00000010'))
     elif last == 'garbage':
-      out.append(tape.pick(['XXXXjunk', 'okay', '', 'INF'], 'garbage'))
+      out.append(tape.pick(['XXXXjunk', 'okay', '', 'INF', 'WAIT50% done'], 'garbage'))
     return out
 
   infos_seen = []
